@@ -148,11 +148,11 @@ class HTTPFile(io.IOBase):
 
     def read(self, size=-1, /):
         """Cache-supported read operation (file object)"""
+        if size is None or size < 0:
+            # read until the end of the resource
+            size = max(0, self.length - self._pos)
         data = self.read_range_cached(self._pos, self._pos + size)
-        if size > 0:
-            self._pos += size
-        else:
-            self._pos = self.length
+        self._pos += size
         return data
 
     def read_range_cached(self, start, stop):
